@@ -1,2 +1,3 @@
 //! Reference models: independent of the library's matching code.
 pub mod pat;
+pub mod opts;
